@@ -54,6 +54,11 @@ def eval_game(kind, cfg, game, mode):
             d = draw(model, game)
             if not isinstance(d, float) or not (-S <= d <= 1 + S):
                 return [("range", f"{kind}.predict_draw = {d!r} outside [0,1] for {game}")], 0
+            al = lib.ratings_aliased(model, game)
+            if al is not None:
+                d2 = model.predict_draw(al)
+                if not (abs(d2 - d) <= S):
+                    return [("alias", f"{kind}.predict_draw = {d2!r} when identical teams are one list object in several slots, {d!r} otherwise; {game}")], 1
             if mode == "basic":
                 return [], 0
             n = len(game)
@@ -193,3 +198,7 @@ def replay(case):
 def main(ctx, t0):
     acc = core.run_units(units(ctx), run_unit, ctx)
     return core.finish(PID, ctx, LEVEL, acc, RULE, {"exhaustive": True, "plan": [f"{a}/{b}/{c}" for a, b, c in plan(ctx)]}, ASSUMPTIONS, t0)
+
+
+def replay_unit(unit, ctx):
+    return run_unit(unit, ctx)
